@@ -351,7 +351,11 @@ func RunFragment(rng *lib.Rng, tier string, dir string, sum *lib.Summary) {
 		if acc {
 			ri, rv = resCoq(oi, ci), resCoq(ov, cv)
 		}
-		term := "(" + p.Coq() + ",\n [" + strings.Join(argsCoq, "; ") + "], " + accS + ", " + ri + ", " + rv + ")"
+		genS := "false"
+		if origin == "gen" || origin == "corpus" {
+			genS = "true"
+		}
+		term := "(" + p.Coq() + ",\n [" + strings.Join(argsCoq, "; ") + "], " + accS + ", " + ri + ", " + rv + ", " + genS + ")"
 		cw.Add(term, fragCase{Key: key, Origin: origin, Accepted: acc, Interp: orOk(ci), VM: orOk(cv), Args: argsTxt, Program: src})
 		if acc {
 			sum.Sample(map[string]any{"fragment_program": src, "args": argsTxt, "interpreter": orOk(ci), "vm": orOk(cv)})
